@@ -18,6 +18,7 @@ _PINNED = {
     "TQDM_DISABLE": "1",
     "PYOMA_LOG_LEVEL": "CRITICAL",
     "MPLBACKEND": "Agg",
+    "PYTHONWARNINGS": "ignore",
 }
 
 
@@ -38,6 +39,9 @@ def setup() -> None:
     if VERIF_DIR not in sys.path:
         sys.path.insert(1, VERIF_DIR)
     sys.dont_write_bytecode = True
+    import warnings
+
+    warnings.simplefilter("ignore")
 
 
 def import_target():
